@@ -8,7 +8,7 @@ CONSTANTS
   CallerActive = {TRUE}
   Grants = {{}, {12}, {66}, {10}, {15}, {99}, {9}, {12,19}}
   AuthPairs = {11,21,12,22}
-  MaxOps = 3
+  MaxOps = 2
   StopAtFailure = TRUE
 
 CHECK_DEADLOCK FALSE
